@@ -2,6 +2,7 @@
 From Coq Require Import NArith ZArith List Bool Permutation.
 Require Import Tinode.Base.Util Tinode.Pure.Query Tinode.Pure.QuerySpec Tinode.Pure.QueryProofs.
 Require Import Tinode.Pure.Tags Tinode.Pure.TagsProofs.
+Require Import Tinode.Sys.TagState Tinode.Sys.TagStateProofs.
 Import ListNotations.
 
 (* ---- the query parser (model of parseSearchQuery after the repair of
@@ -105,6 +106,106 @@ Print Assumptions c19_restricted_equal_sound.
 Print Assumptions c19_restricted_no_add_no_remove.
 Print Assumptions c19_masked_filter_sound.
 
+(* ---- the tag rules over HISTORIES (model Sys/TagState.v of replySetTags / replyGetTags on
+   'me' and group topics, of the tags of a new group topic and of a new account, of unload /
+   reload and of the server-side tag changes made for authenticators and validators):
+   every configuration c = (reserved namespaces, maxTagCount), every world w (any number of
+   tag holders, any rows, loaded or not), every sequence of requests rs. ---- *)
+Section C19TagState.
+  Variable lower : N -> N.
+  Variables is_letter is_digit is_number : N -> bool.
+  Hypothesis lower_idem : forall r, lower (lower r) = lower r.
+  Hypothesis lower_space : forall r, is_space (lower r) = is_space r.
+
+  Notation step := (TagState.step lower is_letter is_digit is_number).
+  Notation run := (TagState.run lower is_letter is_digit is_number).
+  Notation norm_list := (norm_list lower is_letter is_digit).
+  Notation w_norm := (w_norm lower is_letter is_digit).
+
+  (* an accepted {set tags} writes exactly the normalised request to the row and to the loaded topic *)
+  Theorem c19_accepted_update_stores_normalised : forall c w h who fail tags a b,
+    snd (step c w (SetTags h who fail tags)) = RCtrl 200 a b ->
+    exists hd', lookup h (fst (step c w (SetTags h who fail tags))) = Some hd' /\
+                normalize_tags lower is_letter is_digit (c_max c) tags = Some (h_store hd') /\
+                h_cache hd' = Some (h_store hd') /\ norm_list c (h_store hd').
+  Proof. exact (set_accepted_normalised lower is_letter is_digit is_number lower_idem lower_space). Qed.
+
+  (* what "normalised" says: de-duplicated, within the count limit, every tag trimmed, lower-cased,
+     2..96 runes, starting with a letter or a digit *)
+  Theorem c19_normalised_meaning : forall c l, norm_list c l ->
+    NoDup l /\ (length l <= c_max c)%nat /\
+    forall t, In t l -> (2 <= length t <= 96)%nat /\ (is_letter (hd 0%N t) = true \/ is_digit (hd 0%N t) = true) /\
+                        map lower t = t /\ trim_space t = t.
+  Proof. exact (norm_list_spelled lower is_letter is_digit). Qed.
+
+  (* stored tags are ALWAYS normalised: every sequence of client tag requests (set / get / unload /
+     new topic / new account) keeps every row normalised and every loaded topic equal to its row *)
+  Theorem c19_rows_stay_normalised : forall c rs w,
+    w_norm c w -> forallb tag_request rs = true -> w_norm c (fst (run c w rs)).
+  Proof. exact (run_norm lower is_letter is_digit is_number lower_idem lower_space). Qed.
+
+  Theorem c19_loaded_topic_holds_the_row : forall c w h hd c0,
+    w_norm c w -> lookup h w = Some hd -> h_cache hd = Some c0 -> c0 = h_store hd.
+  Proof. exact (norm_cache_is_store lower is_letter is_digit). Qed.
+
+  (* for ANY rows (normalised or not) and any requests, server-side ones included, the loaded topic
+     holds a permutation of the row *)
+  Theorem c19_loaded_topic_permutes_the_row : forall c rs w,
+    w_coherent w -> w_coherent (fst (run c w rs)).
+  Proof. exact (run_coherent lower is_letter is_digit is_number). Qed.
+
+  (* clients can never add or remove a tag of a reserved namespace: through every sequence of client
+     requests the reserved-namespace tags of every row stay the same multiset *)
+  Theorem c19_reserved_tags_never_changed_by_clients : forall c rs w h hd,
+    w_coherent w -> forallb (fun r => negb (is_srv r)) rs = true -> lookup h w = Some hd ->
+    exists hd', lookup h (fst (run c w rs)) = Some hd' /\ h_kind hd' = h_kind hd /\ h_owner hd' = h_owner hd /\
+                Permutation (filter_restricted is_letter is_number (h_store hd') (c_ns c))
+                            (filter_restricted is_letter is_number (h_store hd) (c_ns c)).
+  Proof. exact (run_reserved_unchanged lower is_letter is_digit is_number). Qed.
+
+  (* a topic or account created by a client request carries no reserved-namespace tag chosen by the
+     client: none at all for a topic, only the authenticator's own for an account *)
+  Theorem c19_new_holder_has_no_client_reserved_tag : forall c w r h hd',
+    lookup h w = None -> lookup h (fst (step c w r)) = Some hd' ->
+    forall t, restricted is_letter is_number (c_ns c) t = true -> In t (h_store hd') ->
+      match r with NewUser _ _ au => In t au | _ => False end.
+  Proof. exact (step_new_holder_reserved lower is_letter is_digit is_number). Qed.
+
+  (* a rejected request (403: reserved tags touched, or not the owner) changes nothing: rows, loaded
+     topics, and the answers to every later sequence of requests are those of the history without it *)
+  Theorem c19_rejected_request_invisible : forall c w r rs a b,
+    snd (step c w r) = RCtrl 403 a b ->
+    snd (run c w (r :: rs)) = RCtrl 403 a b :: snd (run c w rs) /\
+    obs_eq (fst (run c w (r :: rs))) (fst (run c w rs)).
+  Proof. exact (rejected_request_invisible lower is_letter is_digit is_number). Qed.
+
+  (* with normalised rows the same holds for every request that is not accepted (304 not modified,
+     500 store failure, 204 no tags) *)
+  Theorem c19_unaccepted_request_changes_nothing : forall c w r code a b,
+    w_norm c w -> snd (step c w r) = RCtrl code a b -> code <> 200%N -> code <> 201%N ->
+    obs_eq w (fst (step c w r)).
+  Proof. exact (unaccepted_step_invisible lower is_letter is_digit is_number). Qed.
+
+  Theorem c19_get_tags_changes_nothing : forall c w h who, obs_eq w (fst (step c w (GetTags h who))).
+  Proof. exact (get_step_invisible lower is_letter is_digit is_number). Qed.
+
+  (* answers depend only on the rows and on what the loaded topics hold (the VALUES of the lists) *)
+  Theorem c19_answers_depend_on_visible_state : forall c rs w1 w2, obs_eq w1 w2 ->
+    snd (run c w1 rs) = snd (run c w2 rs) /\ obs_eq (fst (run c w1 rs)) (fst (run c w2 rs)).
+  Proof. exact (run_obs lower is_letter is_digit is_number). Qed.
+End C19TagState.
+Print Assumptions c19_accepted_update_stores_normalised.
+Print Assumptions c19_normalised_meaning.
+Print Assumptions c19_rows_stay_normalised.
+Print Assumptions c19_loaded_topic_holds_the_row.
+Print Assumptions c19_loaded_topic_permutes_the_row.
+Print Assumptions c19_reserved_tags_never_changed_by_clients.
+Print Assumptions c19_new_holder_has_no_client_reserved_tag.
+Print Assumptions c19_rejected_request_invisible.
+Print Assumptions c19_unaccepted_request_changes_nothing.
+Print Assumptions c19_get_tags_changes_nothing.
+Print Assumptions c19_answers_depend_on_visible_state.
+
 (* non-vacuity: a query using every construct, identity lower-casing and rewriting *)
 Example c19_ex_query :
   parse (fun r => r) (fun s => s) [97; 32; 34; 98; 32; 44; 34; 44; 99; 32; 233]%N   (* a "b ,",c e-acute *)
@@ -133,4 +234,34 @@ Example c19_ex_restricted_rejected :
 Proof. reflexivity. Qed.
 Example c19_ex_masked_denied :
   masked_gate ascii_letter ascii_digit [[97; 98]]%N [[116; 101; 108; 58; 49]]%N [[116; 101; 108]]%N = false.
+Proof. reflexivity. Qed.
+
+(* a history through the stateful layer: account created with the authenticator's tag basic:alice,
+   an ordinary tag replaced (accepted), the reserved tag replaced (rejected), read back *)
+Definition s_alice : tag := [97; 108; 105; 99; 101]%N.
+Definition s_bob : tag := [98; 111; 98]%N.
+Definition s_basic : tag := [98; 97; 115; 105; 99]%N.
+Definition s_basic_alice : tag := (s_basic ++ [58] ++ s_alice)%N.
+Definition s_basic_bob : tag := (s_basic ++ [58] ++ s_bob)%N.
+Example c19_ex_history :
+  snd (TagState.run ascii_lower ascii_letter ascii_digit ascii_digit (mkCfg [s_basic] 16) []
+         [NewUser 1 (Some [s_alice]) [s_basic_alice]; GetTags 1 1;
+          SetTags 1 1 false (Some [s_bob; s_basic_alice]);
+          SetTags 1 1 false (Some [s_bob; s_basic_bob]);
+          SetTags 1 1 false (Some [s_bob; s_basic_alice; s_basic_alice]);
+          GetTags 1 1]%N)
+  = [RCtrl 201 0 0; RTags [s_alice; s_basic_alice]; RCtrl 200 1 1; RCtrl 403 0 0; RCtrl 304 0 0;
+     RTags [s_basic_alice; s_bob]]%N.
+Proof. reflexivity. Qed.
+(* the hypotheses w_norm / w_coherent are satisfiable and reach non-empty worlds: the empty world,
+   then topics and accounts created by requests *)
+Example c19_ex_norm_world : w_norm ascii_lower ascii_letter ascii_digit (mkCfg [s_basic] 16) [].
+Proof. intros h hd H. discriminate. Qed.
+Example c19_ex_coherent_world : w_coherent [].
+Proof. intros h hd H. discriminate. Qed.
+Example c19_ex_new_topic :
+  TagState.run ascii_lower ascii_letter ascii_digit ascii_digit (mkCfg [s_basic] 16) []
+    [NewGrp 7 1 (Some [s_bob; s_alice]); NewGrp 8 1 (Some [s_basic_bob]); SetTags 7 2 false (Some [s_bob])]%N
+  = ([(7, mkH KGrp 1 [s_alice; s_bob] (Some [s_alice; s_bob])); (7, mkH KGrp 1 [s_alice; s_bob] (Some [s_alice; s_bob]))],
+     [RCtrl 200 0 0; RCtrl 403 0 0; RCtrl 403 0 0])%N.
 Proof. reflexivity. Qed.
